@@ -649,28 +649,23 @@ func ruleNsCarry(c *Ctx) []Obligation {
 			if !oka || !al.Heap || namedOf(derefType(al.Type())) != entry {
 				return
 			}
-			// a stand-in: a fresh entry that becomes the parent of an existing entry x and copies x's Prefix
+			// a stand-in: a fresh entry that becomes the parent of an entry x that existed before it
 			var wrapped ssa.Value
-			for _, st := range storesToField(fn, fPrefix) {
-				if _, _, base := fieldOf(st.Addr); base != ssa.Value(al) {
+			for _, st := range storesToField(fn, fParent) {
+				_, _, base := fieldOf(st.Addr)
+				if base == nil || st.Val != ssa.Value(al) {
 					continue
 				}
-				if _, f, src := loadedField(st.Val); f == fPrefix {
-					wrapped = src
+				switch rootOf(base).(type) {
+				case *ssa.Alloc, *ssa.Call:
+					continue // made here, or handed out fresh by a call (a copy)
 				}
+				wrapped = base
 			}
 			if wrapped == nil {
 				return
 			}
-			reparented := false
-			for _, st := range storesToField(fn, fParent) {
-				if _, _, base := fieldOf(st.Addr); base == wrapped && st.Val == ssa.Value(al) {
-					reparented = true
-				}
-			}
-			if !reparented {
-				return
-			}
+			_ = fPrefix
 			con := fmt.Sprintf("%s: the entry made to stand for another takes over its namespace stamp", c.FnName(fn))
 			carried := false
 			for _, st := range storesToField(fn, fNS) {
@@ -682,9 +677,9 @@ func ruleNsCarry(c *Ctx) []Obligation {
 				}
 			}
 			if carried {
-				obs = append(obs, ok(R, con, c.InstrPos(al), "namespace: x.namespace next to Prefix: x.Prefix"))
+				obs = append(obs, ok(R, con, c.InstrPos(al), "namespace: x.namespace, x being the entry it becomes the parent of"))
 			} else {
-				obs = append(obs, bad(R, con, c.InstrPos(al), "the new entry copies the wrapped entry's prefix but not its namespace stamp: for a node another module augmented in, the stand-in (implicit case) reports the augmented module's namespace and instantiating module while the node itself reports the augmenting module's"))
+				obs = append(obs, bad(R, con, c.InstrPos(al), "the new entry does not take over the namespace stamp of the entry it wraps: for a node another module augmented in, the stand-in (implicit case) reports the augmented module's namespace and instantiating module while the node itself reports the augmenting module's"))
 			}
 		})
 	}
